@@ -260,7 +260,13 @@ Definition step_check (p : params) (h : hstate) (o : vop) : hstate + list Z :=
       let mb := encode (fmt_vec p) (to_val p bm s') in
       let framing := match decode (fmt_vec p) bytes with Some (_, []) => true | _ => false end in
       if list_eqb mb bytes && (n =? Z.of_nat (length bytes)) then nextc s' (h_live h) 0
-      else inr (verdict false (framing && (n =? Z.of_nat (length bytes))) [h_i h; -7; Z.of_nat (length mb)])
+      else if framing && (n =? Z.of_nat (length bytes)) then
+        (* the stream is not the model's but is a well-formed stream of this kind with the right byte
+           count: record the divergence and go on -- the reload that follows takes its state from the
+           stream itself, and the continuation history decides *)
+        inl {| h_model := s'; h_live := h_live h; h_i := h_i h + 1; h_weak := h_weak h; h_impl := None;
+               h_div := match h_div h with Some d => Some d | None => Some [h_i h; -7; Z.of_nat (length mb)] end |}
+      else inr (verdict false false [h_i h; -7; Z.of_nat (length mb)])
   | OReload bytes err n =>
       match decode (fmt_vec p) bytes with
       | Some (v, []) =>
